@@ -1,4 +1,15 @@
 /* Proof units over Lib/core/ps.c. */
+/* loop contract of the drain loop in flush_pubsub_msgs() (anchor M_VERIF_LOOP(ps_flush)): what has left the ghost pipe has been
+ * either appended to the delivery queue or released, exactly once, according to the flush mode */
+#ifdef V_FLUSH_UNIT
+#define M_VERIF_LOOPSPEC_ps_flush \
+    __CPROVER_assigns(mm, g.read_calls, g.pipe_len, g_errno, g.newevt_calls, g.newevt_src, g.enq_calls, g.enq_arg, g.enq_q, g.unref_calls, g.unref_arg, g.unref_arg_prev, \
+                      flushed->len, flushed->first, flushed->last) \
+    __CPROVER_loop_invariant(g.pipe_len <= g_P0 && flushed == g.qnew_ret && flushed != NULL && g.cb_calls == g_cb0) \
+    __CPROVER_loop_invariant((!stopping_mod && g_mod->state == M_MOD_RUNNING) ? (g.enq_calls == g_e0 + (g_P0 - g.pipe_len) && g.unref_calls == g_u0 && flushed->len == g_P0 - g.pipe_len) \
+                                                                               : (g.unref_calls == g_u0 + (g_P0 - g.pipe_len) && g.enq_calls == g_e0 && flushed->len == 0)) \
+    __CPROVER_decreases(g.pipe_len)
+#endif
 #include "vmodel.h"
 #include "core/ps.c"            /* the real translation unit, unmodified */
 static m_queue_t *g_evq;
@@ -6,7 +17,7 @@ static m_queue_t *g_evq;
 #include "cb.contracts.h"
 #include "ps.contracts.h"
 
-#define H_INPUTS(X) V_MOD_INPUTS(X) X(uint64_t, evq_len) X(uint8_t, has_topic) X(uint8_t, has_key) X(uint8_t, alloc_fails) X(uint8_t, pipe_full) X(uint8_t, autofree) X(uint64_t, pipe_len)
+#define H_INPUTS(X) V_MOD_INPUTS(X) X(uint64_t, evq_len) X(uint8_t, has_topic) X(uint8_t, has_key) X(uint8_t, alloc_fails) X(uint8_t, pipe_full) X(uint8_t, autofree) X(uint64_t, pipe_len) X(uint8_t, stopping) X(uint8_t, has_sub)
 V_DEFINE_INPUTS(H_INPUTS)
 #include "vbuild.h"
 
@@ -45,3 +56,19 @@ void h_tell_if(void) {
     V_COVER("tell-publish-unmatched", vin_has_topic && !vin_has_key); V_COVER("tell-pipe-full", g.unref_calls == 1); V_COVER("tell-not-eligible-state", vin_state == M_MOD_IDLE);
     V_CANARY();
 }
+
+#ifdef V_FLUSH_UNIT
+void h_flush(void) {
+    build();
+    V_ASSUME(vin_pipe_len < ((uint64_t)1 << 58));
+    static ev_src_t sub;
+    g_pmsg = malloc(sizeof *g_pmsg); __CPROVER_assume(g_pmsg != NULL);
+    g_pmsg->sub = vin_has_sub ? &sub : NULL; g_pmsg->msg.topic = vin_has_sub ? "t" : NULL; g_pmsg->flags = 0;
+    g.pipe_len = vin_pipe_len; g_mod->pubsub_fd[0] = 7; g_mod->pubsub_fd[1] = 8;
+    g_P0 = g.pipe_len; g_e0 = g.enq_calls; g_u0 = g.unref_calls; g_cb0 = g.cb_calls;
+    int r = flush_pubsub_msgs(NULL, (vin_stopping & 1) ? NULL : "k", g_mod);
+    V_COVER("flush-deliver-many", !(vin_stopping & 1) && vin_state == M_MOD_RUNNING && vin_pipe_len == 1000 && r == 0); V_COVER("flush-discard-stopping", (vin_stopping & 1) && vin_pipe_len == 3);
+    V_COVER("flush-discard-paused", !(vin_stopping & 1) && vin_state == M_MOD_PAUSED && vin_pipe_len > 0); V_COVER("flush-direct-tell", !(vin_stopping & 1) && vin_state == M_MOD_RUNNING && !vin_has_sub && vin_pipe_len > 0);
+    V_CANARY();
+}
+#endif
